@@ -220,7 +220,16 @@ def bad_for(elem, rng, kind):
                 b"+1.2.3.4", b"1.2.3.4x", b"a.b.c.d", b"1.2.3.1000", b"0x1.2.3.4", b"1,2,3,4"]
         six = [b"1::2::3", b"12345::", b"g::", b":::", b"1:2:3:4:5:6:7:8:9", b"1:2:3:4:5:6:7", b"::1.2.3", b"1.2.3.4::", b"::01.2.3.4",
                b"1:2:3:4:5:6:7:1.2.3.4", b"::1%eth0", b"[::1]", b":1", b"1:", b"::ffff:256.1.1.1", b"1::2:", b"1:2:3:4:5:6:7::8"]
-        other = [b"::1", b"1:2:3:4:5:6:7:8"] if kind == 4 else [b"1.2.3.4", b"127.0.0.1"]
+        # a valid literal of the OTHER family -- in particular every IPv6 spelling that denotes an IPv4 host (mapped,
+        # compatible, NAT64) where an IPv4 address is due: "the same host" is not "the right field"
+        if kind == 4:
+            other = [b"::1", b"1:2:3:4:5:6:7:8", b"::", b"::ffff:1.2.3.4", b"::ffff:102:304", b"0:0:0:0:0:ffff:1.2.3.4", b"0:0:0:0:0:FFFF:102:304",
+                     b"::1.2.3.4", b"::ffff:0:0", b"64:ff9b::1.2.3.4", b"::ffff:255.255.255.255"]
+            for _ in range(3):
+                v = special_ip6(rng)
+                other.append(spell_ip6([v[2 * i] * 256 + v[2 * i + 1] for i in range(8)], rng))
+        else:
+            other = [b"1.2.3.4", b"127.0.0.1", b"0.0.0.0", b"255.255.255.255", spell_ip4(special_ip4(rng))]
         return (four if kind == 4 else six) + other + common
     if elem in ("sp", "dp"):
         return [b"+80", b"-80", b"080", b"00", b"65536", b"99999", b"100000", b"8o", b"0x50", b"80.", b"80\n", b" 80".strip() + b"\t", b"1e3",
